@@ -1,9 +1,20 @@
 import SupervisorModel.Basic.DriverKit
 import SupervisorModel.Model.SupDriver
 import SupervisorModel.Model.AllFunc
+import SupervisorModel.Model.Execv
 /-
-  drv_c13: the daemon model (`sup` cases, the same entry point drv_c02 uses) and the make_allfunc model
-  (`allfunc` cases).
+  drv_c13: the daemon model (`sup` cases, the same entry point drv_c02 uses), the make_allfunc model
+  (`allfunc` cases) and the command-file checks behind startProcess / spawn() (`execv` cases, Model/Execv.lean).
+
+    case execv <process config as for `case proc`>
+    check st=<none|st_mode> acc=<0|1>                     ServerOptions.check_execv_args -> ok | <class raised>
+    getargs cmd=<unparsable|empty|explicit|search> files=<st>/<acc>,...|-
+                                                          Subprocess.get_execv_args -> ok:<index of the file chosen> | <class raised>
+    xstart now= mood= wait=<0|1> spawn=<ok:pid|pipeerr|forkerr> cmd= files=
+                                                          startProcess(name, wait) -> <process> | <seam calls, events, answer> | <exception>
+                                                          (answer `deferred`: a callback was handed back)
+    xtransition now= mood= spawn= kill= cmd= files=       Subprocess.transition() with spawn()'s lookup answered by the files
+    every operation of the `proc` model (transition, reap, rpcstop, ...) with its own line format
 
     case allfunc <process>*          one token per (group, process) pair of the list, in list order:
                                      <group>/<name>/<0|1 predicate>/<imm>/<poll>;<poll>;...
@@ -81,4 +92,5 @@ def runCase (cfg : List String) (ops : List String) : List String :=
 
 end Sv.AllFunc.Driver
 
-def main : IO Unit := Sv.driverMain [("sup", Sv.Sup.runCase), ("allfunc", Sv.AllFunc.Driver.runCase)]
+def main : IO Unit := Sv.driverMain [("sup", Sv.Sup.runCase), ("allfunc", Sv.AllFunc.Driver.runCase),
+  ("execv", Sv.Execv.runCase)]
